@@ -283,13 +283,29 @@ REG.optional_keys['ExArg'] = {'uids', 'uid'}
 ExMsg = T.Rec('ExMsg', cmd=OStr, arg=T.Opt(ExArg))
 REG.optional_keys['ExMsg'] = {'cmd', 'arg'}
 
+def _cc_seen(ex, node, st):
+    """ghost code after `task = self.get_task(tid)`: one more named uid looked at,
+    and whether the executor owns it"""
+    st.env['n_seen'] = Val(T.Int, ex.get_var(st, 'n_seen').term + 1)
+    t = ex.get_var(st, 'task')
+    st.env['n_found'] = Val(T.Int, ex.get_var(st, 'n_found').term + z3.If(C.truthy(t), 1, 0))
+_cc_seen.mutates = ('n_seen', 'n_found')
+
+def _cc_call(ex, node, st):
+    st.env['n_calls'] = Val(T.Int, ex.get_var(st, 'n_calls').term + 1)
+_cc_call.mutates = ('n_calls',)
+
+_cc_ghost = dict(_ghost)
+_cc_ghost.update(n_seen=T.Int, n_found=T.Int, n_calls=T.Int)
+
 REG.spec('agent/executing/base.py:AgentExecutingComponent.control_cb#cancel',
     fragment = "if cmd == 'cancel_tasks':",
     fragment_marker = 'self.cancel_task(task)',
     params   = dict(cmd=OStr, arg=T.Opt(ExArg)),
     self     = dict(_tasks=ETaskM),
-    ghost    = _ghost,
+    ghost    = _cc_ghost,
     locals   = dict(task=T.Opt(ETask)),
+    stmt_ghost = {'task = self.get_task(tid)': _cc_seen, 'self.cancel_task(task)': _cc_call},
     calls    = {'self.get_task': 'agent/executing/popen.py:Popen.get_task',
                 'self.cancel_task': 'agent/executing/popen.py:Popen.cancel_task',
                 'time.time': None},
@@ -297,9 +313,12 @@ REG.spec('agent/executing/base.py:AgentExecutingComponent.control_cb#cancel',
     requires = ['forall(lambda k: k not in token, Str)',
                 'forall(lambda u: implies(indom(self._tasks, u), at(self._tasks, u).uid == u), Str)',
                 'cmd == "cancel_tasks"', 'arg is not None and val(arg).uids is not None'],
-    modifies = ['self._tasks', 'token', 'fin_log', 'adv_log'],
+    modifies = ['self._tasks', 'token', 'fin_log', 'adv_log', 'n_seen', 'n_found', 'n_calls'],
     raises   = {},
     ensures  = [
+      # C08: every named task this executor owns is handed to cancel_task, wherever it stands in the request
+      ('every-named-uid-is-looked-at-and-every-owned-one-is-canceled',
+       'n_seen - old(n_seen) == len(val(val(arg).uids)) and n_calls - old(n_calls) == n_found - old(n_found)'),
       # C08: tasks that are not named keep their place and are not finished
       ('bystanders-untouched',
        'forall(lambda u: implies(not in_list(val(val(arg).uids), u), indom(self._tasks, u) == indom(old(self._tasks), u) and '
@@ -310,7 +329,7 @@ REG.spec('agent/executing/base.py:AgentExecutingComponent.control_cb#cancel',
       ('no-token-left-behind', 'forall(lambda k: k not in token, Str)'),
     ],
     loops = {
-      '1': ['forall(lambda k: k not in token, Str)',
+      '1': ['forall(lambda k: k not in token, Str)', 'n_seen - old(n_seen) == i_tid', 'n_calls - old(n_calls) == n_found - old(n_found)',
             'forall(lambda u: implies(indom(self._tasks, u), at(self._tasks, u).uid == u), Str)',
             'forall(lambda u: implies(not exists(lambda i: 0 <= i < i_tid and val(val(arg).uids)[i] == u), indom(self._tasks, u) == indom(old(self._tasks), u) and '
             'implies(indom(self._tasks, u), at(self._tasks, u) == at(old(self._tasks), u))), Str)',
